@@ -210,7 +210,7 @@ def families(tier, seed):
         fams.append(Family('sphere/n1=%d/n2=%d' % (n1, n2), fam_sphere, (n1, n2), must_reach=('ok',), budget_s=200 if tier == 'quick' else 1500))
     for fr in (['axis', 'planar'] if tier == 'quick' else ['axis', 'planar', 'oblique', 'pyth3', 'shear']):
         for which in ('Parallelogram', 'Parallelepiped'):
-            fams.append(Family('%s/%s/scaled' % (which.lower(), fr), fam_para, (which, fr, True), must_reach=('ok',)))
+            fams.append(Family('%s/%s/scaled' % (which.lower(), fr), fam_para, (which, fr, True), must_reach=('ok',), budget_s=60 if tier == 'quick' else 600))
     return fams
 
 
